@@ -206,6 +206,10 @@ Fixpoint node_at (t : tree) (p : path) : option tree :=
               end
   end.
 
+(* the entry at p is a directory *)
+Definition kind_at (t : tree) (p : path) : bool :=
+  match node_at t p with Some c => is_dir c | None => false end.
+
 Lemma node_at_snoc t : forall p ign ch n c,
   node_at t p = Some (Dir ign ch) -> find_child n ch = Some c -> node_at t (p ++ [n]) = Some c.
 Proof.
@@ -312,14 +316,14 @@ Qed.
 
 (* ---- the known class of P17, as a boolean on trees -------------------------------------------------------- *)
 (* every entry of the tree (reported or not), with its path from cur *)
-Fixpoint entries (cur : path) (t : tree) {struct t} : list path :=
+Fixpoint entries (cur : path) (t : tree) {struct t} : list (path * bool) :=
   match t with
   | File => []
   | Dir _ ch =>
-    (fix go (l : list (name * tree)) : list path :=
+    (fix go (l : list (name * tree)) : list (path * bool) :=
        match l with
        | [] => []
-       | (n, c) :: r => ((cur ++ [n]) :: entries (cur ++ [n]) c) ++ go r
+       | (n, c) :: r => ((cur ++ [n], is_dir c) :: entries (cur ++ [n]) c) ++ go r
        end) ch
   end.
 
@@ -337,7 +341,7 @@ Fixpoint dirpats (cur : path) (t : tree) {struct t} : list (path * pattern) :=
   end.
 
 Lemma entries_dir cur ign ch :
-  entries cur (Dir ign ch) = flat_map (fun nt => (cur ++ [fst nt]) :: entries (cur ++ [fst nt]) (snd nt)) ch.
+  entries cur (Dir ign ch) = flat_map (fun nt => (cur ++ [fst nt], is_dir (snd nt)) :: entries (cur ++ [fst nt]) (snd nt)) ch.
 Proof. cbn [entries]. induction ch as [|[n c] r IH]; [reflexivity|]. cbn [flat_map fst snd]. rewrite <- IH. reflexivity. Qed.
 
 Lemma dirpats_dir cur ign ch :
@@ -345,7 +349,7 @@ Lemma dirpats_dir cur ign ch :
 Proof. cbn [dirpats]. f_equal. induction ch as [|[n c] r IH]; [reflexivity|]. cbn [flat_map fst snd]. rewrite <- IH. reflexivity. Qed.
 
 Lemma entries_node t : forall p cur ign ch n c,
-  node_at t p = Some (Dir ign ch) -> In (n, c) ch -> In (cur ++ p ++ [n]) (entries cur t).
+  node_at t p = Some (Dir ign ch) -> In (n, c) ch -> In (cur ++ p ++ [n], is_dir c) (entries cur t).
 Proof.
   intros p. revert t. induction p as [|m p IH]; intros t cur ign ch n c H Hin.
   - cbn in H. injection H as ->. rewrite entries_dir. apply in_flat_map. exists (n, c). split; [exact Hin|]. left. reflexivity.
@@ -376,12 +380,12 @@ Proof.
     rewrite <- (firstn_skipn (length D) q) at 1. rewrite Hs, app_nil_r, E. reflexivity.
 Qed.
 
-(* some pattern of an ignore file below the root matches (as a glob) an entry that is not below the
-   directory of that file *)
-Definition known_P17 (gm : bytes -> bytes -> bool) (t : tree) : bool :=
+(* some pattern of an ignore file below the root matches (as a glob, the way the walkers ask: [glob_hit]) an
+   entry that is not below the directory of that file *)
+Definition known_P17 (gm : bytes -> bytes -> bool) (f37 : bool) (t : tree) : bool :=
   existsb (fun dp => match fst dp with
                      | [] => false
-                     | _ => existsb (fun q => gm (p_glob (snd dp)) (render q) && negb (proper_prefixb (fst dp) q)) (entries [] t)
+                     | _ => existsb (fun qd => glob_hit gm f37 (render (fst qd)) (snd qd) (snd dp) && negb (proper_prefixb (fst dp) (fst qd))) (entries [] t)
                      end) (dirpats [] t).
 
 Lemma if_true_same (b : bool) : (if b then true else true) = true.
@@ -392,6 +396,7 @@ Section Walk.
 Variable gm : bytes -> bytes -> bool.
 Variable fixed_P17 : bool.
 Variable fixed_P35 : bool.
+Variable fixed_P37 : bool.
 Variable globals : bytes.
 Variable ign0 : option bytes.
 Variable ch0 : list (name * tree).
@@ -400,21 +405,21 @@ Let T0 := Dir ign0 ch0.
 Let G := global_rules globals.
 Definition RB (p : path) : rules := rb G [] T0 p.
 
-Notation check' := (check gm fixed_P17 fixed_P35).
-Notation hits := (pat_hits gm fixed_P17).
+Notation check' := (check gm fixed_P17 fixed_P35 fixed_P37).
+Notation hits := (pat_hits_d gm fixed_P17 fixed_P37).
 
 Definition spec_child (R' : rules) (p : path) (nt : name * tree) : list path :=
-  if is_ignore (check' R' (p ++ [fst nt])) then []
-  else (p ++ [fst nt]) :: spec_node gm fixed_P17 fixed_P35 R' (p ++ [fst nt]) (snd nt).
+  if is_ignore (check' R' (p ++ [fst nt]) (is_dir (snd nt))) then []
+  else (p ++ [fst nt]) :: spec_node gm fixed_P17 fixed_P35 fixed_P37 R' (p ++ [fst nt]) (snd nt).
 
 Lemma spec_node_dir R p ign ch :
-  spec_node gm fixed_P17 fixed_P35 R p (Dir ign ch) = flat_map (spec_child (add_patterns R (dir_patterns p ign)) p) ch.
+  spec_node gm fixed_P17 fixed_P35 fixed_P37 R p (Dir ign ch) = flat_map (spec_child (add_patterns R (dir_patterns p ign)) p) ch.
 Proof.
   cbn [spec_node]. induction ch as [|[n c] r IH]; [reflexivity|].
   cbn [flat_map]. rewrite <- IH. reflexivity.
 Qed.
 
-Lemma spec_node_file R p : spec_node gm fixed_P17 fixed_P35 R p File = [].
+Lemma spec_node_file R p : spec_node gm fixed_P17 fixed_P35 fixed_P37 R p File = [].
 Proof. reflexivity. Qed.
 
 (* is a directory of the tree, with this ignore text and these entries *)
@@ -460,7 +465,7 @@ Hypothesis Hwf : wf_tree T0 = true.
 Definition local_rules : Prop :=
   forall pat p' ign' ch' p ign ch n t,
     is_node p' ign' ch' -> In pat (dir_patterns p' ign') ->
-    is_node p ign ch -> In (n, t) ch -> hits (render (p ++ [n])) pat = true ->
+    is_node p ign ch -> In (n, t) ch -> hits (render (p ++ [n])) (is_dir t) pat = true ->
     exists r, p ++ [n] = p' ++ r /\ r <> [].
 
 Lemma entry_good p ign ch n t : is_node p ign ch -> In (n, t) ch -> Forall good (p ++ [n]).
@@ -472,7 +477,7 @@ Qed.
 Lemma local_of_fixed : fixed_P17 = true -> local_rules.
 Proof.
   intros Hfixed pat p' ign' ch' p ign ch n t Hn' Hin Hn Hc Hh.
-  unfold pat_hits in Hh. rewrite Hfixed in Hh. apply andb_true_iff in Hh as [Ha _].
+  unfold pat_hits_d in Hh. rewrite Hfixed in Hh. apply andb_true_iff in Hh as [Ha _].
   destruct p' as [|m p']; [exists (p ++ [n]); split; [reflexivity|destruct p; discriminate]|].
   destruct (node_at_wf T0 (m :: p') _ Hwf Hn') as [Hgp' _].
   apply (applies_below pat (m :: p') (p ++ [n]) (dir_patterns_src _ _ _ Hin)); try assumption.
@@ -481,16 +486,16 @@ Proof.
   - eapply entry_good; eassumption.
 Qed.
 
-Lemma local_of_not_known : known_P17 gm T0 = false -> local_rules.
+Lemma local_of_not_known : known_P17 gm fixed_P37 T0 = false -> local_rules.
 Proof.
   intros Hk pat p' ign' ch' p ign ch n t Hn' Hin Hn Hc Hh.
   destruct p' as [|m p']; [exists (p ++ [n]); split; [reflexivity|destruct p; discriminate]|].
   apply proper_prefixb_spec. destruct (proper_prefixb (m :: p') (p ++ [n])) eqn:Ep; [reflexivity|]. exfalso.
-  unfold pat_hits in Hh. apply andb_true_iff in Hh as [_ Hg].
+  unfold pat_hits_d in Hh. apply andb_true_iff in Hh as [_ Hg].
   assert (Hd := dirpats_node T0 (m :: p') [] ign' ch' pat Hn' Hin). assert (He := entries_node T0 p [] ign ch n t Hn Hc). cbn [app] in Hd, He.
-  assert (Ht : known_P17 gm T0 = true); [|rewrite Ht in Hk; discriminate].
+  assert (Ht : known_P17 gm fixed_P37 T0 = true); [|rewrite Ht in Hk; discriminate].
   unfold known_P17. apply existsb_exists. exists (m :: p', pat). split; [exact Hd|]. cbn [fst snd].
-  apply existsb_exists. exists (p ++ [n]). split; [exact He|]. rewrite Hg, Ep. reflexivity.
+  apply existsb_exists. exists (p ++ [n], is_dir t). split; [exact He|]. cbn [fst snd]. rewrite Hg, Ep. reflexivity.
 Qed.
 
 Hypothesis Hlocal : local_rules.
@@ -500,41 +505,41 @@ Hypothesis Hlocal : local_rules.
    of the reference walk -- patterns of other directories do not hit q. *)
 Lemma check_stable R p ign ch n t :
   is_node p ign ch -> In (n, t) ch -> sub (RB (p ++ [n])) R -> sourced R ->
-  check' R (p ++ [n]) = check' (RB (p ++ [n])) (p ++ [n]).
+  check' R (p ++ [n]) (is_dir t) = check' (RB (p ++ [n])) (p ++ [n]) (is_dir t).
 Proof.
   intros Hn Hc Hsub Hsrc.
-  set (q := p ++ [n]) in *. set (s := render q).
+  set (q := p ++ [n]) in *. set (s := render q). set (d := is_dir t).
   (* a pattern of a directory of the tree that hits q is loaded in RB q *)
-  assert (Hloc : forall pat p' ign' ch', is_node p' ign' ch' -> In pat (dir_patterns p' ign') -> hits s pat = true ->
+  assert (Hloc : forall pat p' ign' ch', is_node p' ign' ch' -> In pat (dir_patterns p' ign') -> hits s d pat = true ->
                    loaded (dir_patterns p' ign') (RB q)).
   { intros pat p' ign' ch' Hn' Hin Hh.
     destruct (Hlocal pat p' ign' ch' p ign ch n t Hn' Hin Hn Hc Hh) as (r & Eq & Hr).
     destruct r as [|n0 r0]; [contradiction|]. unfold RB, q. rewrite Eq.
     apply (node_loaded T0 p' G [] ign' ch' n0 r0 Hn'). }
   destruct Hsub as [Hsi Hsw]. destruct Hsrc as [Hi Hw].
-  assert (Ew : existsb (hits s) (r_white R) = existsb (hits s) (r_white (RB q))).
+  assert (Ew : existsb (hits s d) (r_white R) = existsb (hits s d) (r_white (RB q))).
   { apply eq_true_iff_eq. split; intros H.
     - apply existsb_exists in H as (pat & Hin & Hh). apply existsb_exists. exists pat. split; [|exact Hh].
       destruct (Hw pat Hin) as [Hg|(p' & ign' & ch' & Hn' & Hin')].
       + apply (proj2 (sub_G_RB q)). exact Hg.
       + assert (Hin2 := proj1 (filter_In _ _ _) Hin'). destruct (Hloc pat p' ign' ch' Hn' (proj1 Hin2) Hh) as [_ L]. apply L. exact Hin'.
     - eapply existsb_incl; eassumption. }
-  assert (Ei : existsb (hits s) (r_ign R) = existsb (hits s) (r_ign (RB q))).
+  assert (Ei : existsb (hits s d) (r_ign R) = existsb (hits s d) (r_ign (RB q))).
   { apply eq_true_iff_eq. split; intros H.
     - apply existsb_exists in H as (pat & Hin & Hh). apply existsb_exists. exists pat. split; [|exact Hh].
       destruct (Hi pat Hin) as [Hg|(p' & ign' & ch' & Hn' & Hin')].
       + apply (proj1 (sub_G_RB q)). exact Hg.
       + assert (Hin2 := proj1 (filter_In _ _ _) Hin'). destruct (Hloc pat p' ign' ch' Hn' (proj1 Hin2) Hh) as [L _]. apply L. exact Hin'.
     - eapply existsb_incl; eassumption. }
-  assert (Eg : global_hit gm (RB q) s = global_hit gm R s).
-  { unfold global_hit. apply eq_true_iff_eq. split; intros H.
+  assert (Eg : global_hit_d gm fixed_P37 (RB q) s d = global_hit_d gm fixed_P37 R s d).
+  { unfold global_hit_d. apply eq_true_iff_eq. split; intros H.
     - eapply existsb_incl; eassumption.
     - apply existsb_exists in H as (pat & Hin & Hh). apply existsb_exists. exists pat. split; [|exact Hh].
       destruct (Hi pat Hin) as [Hg|(p' & ign' & ch' & Hn' & Hin')].
       + apply (proj1 (sub_G_RB q)). exact Hg.
       + exfalso. assert (Hin2 := proj1 (filter_In _ _ _) Hin'). apply andb_true_iff in Hh as [Hgl _].
         unfold is_global in Hgl. rewrite (dir_patterns_src _ _ _ (proj1 Hin2)) in Hgl. discriminate. }
-  unfold check, check_str35, check_str. fold s. rewrite Ew, Ei, Eg. reflexivity.
+  unfold check, check_strd. fold s. rewrite Ew, Ei, Eg. reflexivity.
 Qed.
 
 (* ---- counting --------------------------------------------------------------------------------------- *)
@@ -555,10 +560,10 @@ Proof. cbn [flat_map]. apply cnt_app. Qed.
 
 (* what is still to be reported for a pending directory / a child not yet checked *)
 Definition contrib_item (d : ditem) : list path :=
-  let '(p, ign, ch) := d in spec_node gm fixed_P17 fixed_P35 (RB p) p (Dir ign ch).
+  let '(p, ign, ch) := d in spec_node gm fixed_P17 fixed_P35 fixed_P37 (RB p) p (Dir ign ch).
 Definition contrib_child (qt : path * tree) : list path :=
   let '(q, t) := qt in
-  if is_ignore (check' (RB q) q) then [] else q :: spec_node gm fixed_P17 fixed_P35 (RB q) q t.
+  if is_ignore (check' (RB q) q (is_dir t)) then [] else q :: spec_node gm fixed_P17 fixed_P35 fixed_P37 (RB q) q t.
 
 Definition item_ok (R : rules) (d : ditem) : Prop :=
   let '(p, ign, ch) := d in is_node p ign ch /\ sub (RB p) R.
@@ -607,7 +612,7 @@ Proof.
 Qed.
 
 (* one child check, as both walkers do it, with any adequate rule set *)
-Lemma check_child R q t : child_ok R (q, t) -> sourced R -> check' R q = check' (RB q) q.
+Lemma check_child R q t : child_ok R (q, t) -> sourced R -> check' R q (is_dir t) = check' (RB q) q (is_dir t).
 Proof.
   intros (p & n & ign & ch & -> & Hn & Hin & Hs) Hsrc.
   eapply check_stable; eassumption.
@@ -615,22 +620,22 @@ Qed.
 
 (* [scan]: the filter_map of both walkers over the children of one directory *)
 Lemma scan_spec R p : forall l, Forall (child_ok R) (children_of p l) -> sourced R ->
-  let '(o, k) := scan gm fixed_P17 fixed_P35 R p l in
+  let '(o, k) := scan gm fixed_P17 fixed_P35 fixed_P37 R p l in
   (forall x, (cnt o x + cnt (flat_map contrib_item k) x)%nat = cnt (flat_map contrib_child (children_of p l)) x) /\
   Forall (item_ok R) k.
 Proof.
   induction l as [|[n t] r IH]; intros Hok Hsrc.
   - cbn. split; [reflexivity|constructor].
   - cbn [children_of map fst snd] in Hok. inversion Hok as [|? ? Hc Hr]. subst.
-    specialize (IH Hr Hsrc). cbn [scan]. destruct (scan gm fixed_P17 fixed_P35 R p r) as [o k]. destruct IH as [IHc IHk].
+    specialize (IH Hr Hsrc). cbn [scan]. destruct (scan gm fixed_P17 fixed_P35 fixed_P37 R p r) as [o k]. destruct IH as [IHc IHk].
     assert (Ec := check_child R (p ++ [n]) t Hc Hsrc).
     cbn [children_of map fst snd]. fold (children_of p r).
-    destruct (is_ignore (check' R (p ++ [n]))) eqn:Ei.
+    destruct (is_ignore (check' R (p ++ [n]) (is_dir t))) eqn:Ei.
     + split; [|exact IHk]. intros x. rewrite cnt_flat_map_cons. unfold contrib_child at 1. rewrite <- Ec, Ei. rewrite cnt_nil. apply IHc.
     + destruct (child_node _ _ _ Hc) as [_ Hd]. destruct Hc as (p' & n' & i' & c' & E & Hn' & Hin' & Hs).
       split.
       * intros x. rewrite cnt_flat_map_cons. unfold contrib_child at 1. rewrite <- Ec, Ei.
-        rewrite (cnt_cons (p ++ [n]) o), (cnt_cons (p ++ [n]) (spec_node _ _ _ _ _ _)). specialize (IHc x).
+        rewrite (cnt_cons (p ++ [n]) o), (cnt_cons (p ++ [n]) (spec_node _ _ _ _ _ _ _)). specialize (IHc x).
         destruct t as [|i c]; [rewrite spec_node_file, cnt_nil; lia|].
         rewrite cnt_flat_map_cons. unfold contrib_item at 1. lia.
       * destruct t as [|i c]; [exact IHk|]. constructor; [|exact IHk]. split; [apply Hd; reflexivity|exact Hs].
@@ -713,7 +718,7 @@ Proof.
   - intros x. unfold phi. cbn [c_out c_queue c_threads c']. rewrite Et. rewrite !cnt_flat_map_app, !cnt_flat_map_cons. specialize (Hcnt x). lia.
 Qed.
 
-Lemma par_step_inv c i k c' : Inv c -> par_step gm fixed_P17 fixed_P35 c i k = Some c' -> Inv c' /\ forall x, phi c' x = phi c x.
+Lemma par_step_inv c i k c' : Inv c -> par_step gm fixed_P17 fixed_P35 fixed_P37 c i k = Some c' -> Inv c' /\ forall x, phi c' x = phi c x.
 Proof.
   intros HI H. unfold par_step in H. destruct (nth_error (c_threads c) i) as [ts|] eqn:En; [|discriminate].
   destruct (nth_split _ _ _ En) as (l1 & l2 & Et & Hset).
@@ -758,7 +763,7 @@ Proof.
         -- intros x. cbn [contrib_thread]. rewrite cnt_flat_map_app, !cnt_app, !cnt_flat_map_cons. cbn [flat_map]. rewrite !cnt_nil. lia.
     + inversion Hrest as [|? ? Hc Hr]. subst.
       assert (Ec := check_child _ q t Hc Is).
-      destruct (is_ignore (check' (c_rules c) q)) eqn:Ei.
+      destruct (is_ignore (check' (c_rules c) q (is_dir t))) eqn:Ei.
       * injection H as <-. rewrite Hset.
         apply (step_frame c l1 l2 (Work ((q, t) :: rest) kept) (Work rest kept) (c_queue c) (c_rules c) (c_out c)); cbn [thread_ok]; auto using sub_refl.
         intros x. cbn [contrib_thread]. rewrite cnt_app, (cnt_app (flat_map contrib_child ((q, t) :: rest))), cnt_flat_map_cons.
@@ -771,17 +776,17 @@ Proof.
         -- split; [exact Hr|]. apply Forall_app. split; [exact Hkept|]. destruct t as [|ti tch]; constructor; [|constructor].
            split; [apply Hd; reflexivity|exact Hs].
         -- intros x. cbn [contrib_thread]. rewrite !cnt_app, cnt_flat_map_cons, cnt_flat_map_app.
-           unfold contrib_child at 2. rewrite <- Ec, Ei. rewrite (cnt_cons q (spec_node _ _ _ _ _ _)).
+           unfold contrib_child at 2. rewrite <- Ec, Ei. rewrite (cnt_cons q (spec_node _ _ _ _ _ _ _)).
            destruct t as [|ti tch]; [rewrite spec_node_file; cbn [flat_map]; rewrite !cnt_nil; lia|].
            cbn [flat_map]. rewrite app_nil_r. unfold contrib_item at 3. lia.
   - discriminate.
 Qed.
 
 Lemma par_run_inv sched : forall c, Inv c ->
-  Inv (par_run gm fixed_P17 fixed_P35 c sched) /\ forall x, phi (par_run gm fixed_P17 fixed_P35 c sched) x = phi c x.
+  Inv (par_run gm fixed_P17 fixed_P35 fixed_P37 c sched) /\ forall x, phi (par_run gm fixed_P17 fixed_P35 fixed_P37 c sched) x = phi c x.
 Proof.
   induction sched as [|[i k] r IH]; intros c HI; [split; [exact HI|reflexivity]|].
-  cbn [par_run]. destruct (par_step gm fixed_P17 fixed_P35 c i k) as [c'|] eqn:E; [|apply IH; exact HI].
+  cbn [par_run]. destruct (par_step gm fixed_P17 fixed_P35 fixed_P37 c i k) as [c'|] eqn:E; [|apply IH; exact HI].
   destruct (par_step_inv c i k c' HI E) as [HI' Hp]. destruct (IH c' HI') as [HI'' Hp'].
   split; [exact HI''|]. intros x. rewrite Hp', Hp. reflexivity.
 Qed.
@@ -793,15 +798,15 @@ Lemma cnt_idle n x : cnt (flat_map contrib_thread (repeat Idle n)) x = O.
 Proof. induction n as [|n IH]; [reflexivity|]. cbn [repeat flat_map contrib_thread app]. exact IH. Qed.
 
 Lemma par_init_inv n : (1 <= n)%nat ->
-  let c := par_init gm fixed_P17 fixed_P35 n globals ign0 ch0 in
-  Inv c /\ forall x, phi c x = cnt (spec_walk gm fixed_P17 fixed_P35 globals ign0 ch0) x.
+  let c := par_init gm fixed_P17 fixed_P35 fixed_P37 n globals ign0 ch0 in
+  Inv c /\ forall x, phi c x = cnt (spec_walk gm fixed_P17 fixed_P35 fixed_P37 globals ign0 ch0) x.
 Proof.
   intros Hn. unfold par_init. fold G.
   set (R0 := add_patterns G (dir_patterns [] ign0)).
   assert (Hsrc : sourced R0) by (apply (sourced_add G [] ign0 ch0 sourced_G root_node)).
   assert (Hch : Forall (child_ok R0) (children_of [] ch0)).
   { apply (children_ok R0 [] ign0 ch0 root_node). apply sub_refl. }
-  assert (Hs := scan_spec R0 [] ch0 Hch Hsrc). destruct (scan gm fixed_P17 fixed_P35 R0 [] ch0) as [o kept]. destruct Hs as [Hc Hk].
+  assert (Hs := scan_spec R0 [] ch0 Hch Hsrc). destruct (scan gm fixed_P17 fixed_P35 fixed_P37 R0 [] ch0) as [o kept]. destruct Hs as [Hc Hk].
   split.
   - constructor; cbn.
     + exact Hsrc.
@@ -833,7 +838,7 @@ Proof.
   - apply IH; [assumption|assumption|]. intros x Hx. apply Hd. right. exact Hx.
 Qed.
 
-Lemma spec_node_below : forall t R p x, In x (spec_node gm fixed_P17 fixed_P35 R p t) -> exists n r, x = p ++ n :: r.
+Lemma spec_node_below : forall t R p x, In x (spec_node gm fixed_P17 fixed_P35 fixed_P37 R p t) -> exists n r, x = p ++ n :: r.
 Proof.
   induction t as [|ign ch IH] using tree_ind'; intros R p x Hin; [contradiction|].
   rewrite spec_node_dir in Hin. apply in_flat_map in Hin as ([n c] & Hc & Hx).
@@ -849,7 +854,7 @@ Proof.
   destruct (spec_node_below _ _ _ _ Hx) as (n' & r' & ->). exists (n' :: r'). rewrite <- app_assoc. reflexivity.
 Qed.
 
-Lemma spec_node_nodup : forall t R p, wf_tree t = true -> NoDup (spec_node gm fixed_P17 fixed_P35 R p t).
+Lemma spec_node_nodup : forall t R p, wf_tree t = true -> NoDup (spec_node gm fixed_P17 fixed_P35 fixed_P37 R p t).
 Proof.
   induction t as [|ign ch IH] using tree_ind'; intros R p Hw; [constructor|].
   rewrite spec_node_dir. destruct (wf_children ign ch Hw) as [Hnd Hc]. set (R' := add_patterns R (dir_patterns p ign)).
@@ -869,18 +874,18 @@ Proof.
     apply Hn. apply in_map_iff. exists (m, c'). split; [reflexivity|exact Hm].
 Qed.
 
-Lemma spec_walk_nodup : NoDup (spec_walk gm fixed_P17 fixed_P35 globals ign0 ch0).
+Lemma spec_walk_nodup : NoDup (spec_walk gm fixed_P17 fixed_P35 fixed_P37 globals ign0 ch0).
 Proof. apply spec_node_nodup. exact Hwf. Qed.
 
 (* ---- the theorem about walk_parallel ----------------------------------------------------------------- *)
 Lemma par_walk_deterministic_lemma n sched : (1 <= n)%nat ->
-  let c := par_walk gm fixed_P17 fixed_P35 n globals ign0 ch0 sched in
+  let c := par_walk gm fixed_P17 fixed_P35 fixed_P37 n globals ign0 ch0 sched in
   final c = true ->
-  Permutation (c_out c) (spec_walk gm fixed_P17 fixed_P35 globals ign0 ch0) /\ NoDup (c_out c).
+  Permutation (c_out c) (spec_walk gm fixed_P17 fixed_P35 fixed_P37 globals ign0 ch0) /\ NoDup (c_out c).
 Proof.
   intros Hn c Hf. destruct (par_init_inv n Hn) as [HI0 Hp0].
-  destruct (par_run_inv sched _ HI0) as [HI Hp]. fold (par_walk gm fixed_P17 fixed_P35 n globals ign0 ch0 sched) in HI, Hp. fold c in HI, Hp.
-  assert (Hperm : Permutation (c_out c) (spec_walk gm fixed_P17 fixed_P35 globals ign0 ch0)).
+  destruct (par_run_inv sched _ HI0) as [HI Hp]. fold (par_walk gm fixed_P17 fixed_P35 fixed_P37 n globals ign0 ch0 sched) in HI, Hp. fold c in HI, Hp.
+  assert (Hperm : Permutation (c_out c) (spec_walk gm fixed_P17 fixed_P35 fixed_P37 globals ign0 ch0)).
   { apply (Permutation_count_occ path_eq_dec). intros x. fold (cnt (c_out c) x). rewrite <- (final_phi c HI Hf x), Hp, Hp0. reflexivity. }
   split; [exact Hperm|]. eapply Permutation_NoDup; [apply Permutation_sym; exact Hperm|apply spec_walk_nodup].
 Qed.
@@ -912,16 +917,16 @@ Proof.
   induction l as [|a l IH]; [reflexivity|]. cbn [rev]. rewrite cnt_flat_map_app, IH, (cnt_flat_map_cons f a l). cbn [flat_map]. rewrite app_nil_r. lia.
 Qed.
 
-Lemma scan_dsum R p : forall l, (dsum (snd (scan gm fixed_P17 fixed_P35 R p l)) <= list_sum (map (fun nt => dir_count (snd nt)) l))%nat.
+Lemma scan_dsum R p : forall l, (dsum (snd (scan gm fixed_P17 fixed_P35 fixed_P37 R p l)) <= list_sum (map (fun nt => dir_count (snd nt)) l))%nat.
 Proof.
-  induction l as [|[n t] r IH]; [cbn; lia|]. cbn [scan]. destruct (scan gm fixed_P17 fixed_P35 R p r) as [o k]. cbn [snd] in IH.
+  induction l as [|[n t] r IH]; [cbn; lia|]. cbn [scan]. destruct (scan gm fixed_P17 fixed_P35 fixed_P37 R p r) as [o k]. cbn [snd] in IH.
   cbn [map snd]; rewrite ?list_sum_cons, ?list_sum_nil. destruct (is_ignore _); cbn [snd]; [lia|].
   destruct t as [|i c]; [cbn [dir_count]; lia|]. unfold dsum in *. cbn [map dcount]; rewrite ?list_sum_cons, ?list_sum_nil. lia.
 Qed.
 
 Lemma serial_loop_spec : forall fuel s,
   (dsum (s_stack s) < fuel)%nat -> sourced (s_rules s) -> Forall (item_ok (s_rules s)) (s_stack s) ->
-  exists out, serial_loop gm fixed_P17 fixed_P35 fuel s = Some out /\
+  exists out, serial_loop gm fixed_P17 fixed_P35 fixed_P37 fuel s = Some out /\
               forall x, cnt out x = (cnt (s_out s) x + cnt (flat_map contrib_item (s_stack s)) x)%nat.
 Proof.
   induction fuel as [|f IH]; intros s Hf Hsrc Hok; [lia|]. cbn [serial_loop].
@@ -933,7 +938,7 @@ Proof.
     assert (Hch : Forall (child_ok R') (children_of p ch)).
     { apply (children_ok R' p ign ch Hn). apply sub_add_l; [eapply sub_trans; [exact Hs|apply sub_add]|apply loaded_add]. }
     assert (Hsc := scan_spec R' p ch Hch Hsrc'). assert (Hd := scan_dsum R' p ch).
-    destruct (scan gm fixed_P17 fixed_P35 R' p ch) as [o kept]. destruct Hsc as [Hc Hk]. cbn [snd] in Hd.
+    destruct (scan gm fixed_P17 fixed_P35 fixed_P37 R' p ch) as [o kept]. destruct Hsc as [Hc Hk]. cbn [snd] in Hd.
     destruct (IH {| s_stack := rev kept ++ rest; s_rules := R'; s_out := s_out s ++ o |}) as (out & Eo & Ho); cbn [s_stack s_rules s_out].
     + rewrite dsum_app, dsum_rev. unfold dsum in Hf. cbn [map dcount] in Hf; rewrite ?list_sum_cons, ?list_sum_nil in Hf. rewrite dir_count_dir in Hf. fold (dsum rest) in Hf. lia.
     + exact Hsrc'.
@@ -943,8 +948,8 @@ Proof.
 Qed.
 
 Lemma serial_eq_spec_lemma :
-  exists out, serial_walk gm fixed_P17 fixed_P35 (S (dir_count T0)) globals ign0 ch0 = Some out /\
-              Permutation out (spec_walk gm fixed_P17 fixed_P35 globals ign0 ch0) /\ NoDup out.
+  exists out, serial_walk gm fixed_P17 fixed_P35 fixed_P37 (S (dir_count T0)) globals ign0 ch0 = Some out /\
+              Permutation out (spec_walk gm fixed_P17 fixed_P35 fixed_P37 globals ign0 ch0) /\ NoDup out.
 Proof.
   unfold serial_walk. fold G.
   destruct (serial_loop_spec (S (dir_count T0)) {| s_stack := [([], ign0, ch0)]; s_rules := G; s_out := [] |}) as (out & Eo & Ho); cbn [s_stack s_rules s_out].
@@ -952,7 +957,7 @@ Proof.
   - exact sourced_G.
   - constructor; [|constructor]. split; [exact root_node|apply sub_refl].
   - exists out. split; [exact Eo|].
-    assert (Hperm : Permutation out (spec_walk gm fixed_P17 fixed_P35 globals ign0 ch0)).
+    assert (Hperm : Permutation out (spec_walk gm fixed_P17 fixed_P35 fixed_P37 globals ign0 ch0)).
     { apply (Permutation_count_occ path_eq_dec). intros x. fold (cnt out x). rewrite (Ho x). cbn [s_out s_stack]. rewrite cnt_flat_map_cons. cbn [flat_map]. rewrite !cnt_nil. unfold contrib_item, spec_walk, cnt. fold G. change (RB []) with G. lia. }
     split; [exact Hperm|]. eapply Permutation_NoDup; [apply Permutation_sym; exact Hperm|apply spec_walk_nodup].
 Qed.
@@ -960,19 +965,19 @@ Qed.
 (* ---- an ignored directory hides everything beneath it ------------------------------------------------ *)
 (* every reported path, and every directory on the way to it, was judged "not ignored" by the rules of its
    own ancestors *)
-Lemma spec_node_sound : forall t R cur x, wf_tree t = true -> In x (spec_node gm fixed_P17 fixed_P35 R cur t) ->
+Lemma spec_node_sound : forall t R cur x, wf_tree t = true -> In x (spec_node gm fixed_P17 fixed_P35 fixed_P37 R cur t) ->
   forall p n r, x = cur ++ p ++ n :: r ->
-  is_ignore (check' (rb R cur t (p ++ [n])) (cur ++ p ++ [n])) = false.
+  is_ignore (check' (rb R cur t (p ++ [n])) (cur ++ p ++ [n]) (kind_at t (p ++ [n]))) = false.
 Proof.
   induction t as [|ign ch IH] using tree_ind'; intros R cur x Hw Hin p n r Ex; [contradiction|].
   rewrite spec_node_dir in Hin. apply in_flat_map in Hin as ([n0 c] & Hc & Hx).
   destruct (spec_child_below _ _ _ _ Hx) as (rest & E0). cbn [fst] in E0.
   destruct (wf_children ign ch Hw) as [Hnd Hcw]. destruct (Hcw n0 c Hc) as [_ Hwc].
-  unfold spec_child in Hx. cbn [fst snd] in Hx. destruct (is_ignore (check' _ (cur ++ [n0]))) eqn:Ei; [contradiction|].
+  unfold spec_child in Hx. cbn [fst snd] in Hx. destruct (is_ignore (check' _ (cur ++ [n0]) _)) eqn:Ei; [contradiction|].
   rewrite Ex in E0. apply app_inv_head in E0.
   destruct p as [|m p2].
-  - cbn [app] in E0. injection E0 as -> _. cbn [app rb]. destruct (find_child n0 ch); exact Ei.
-  - cbn [app] in E0. injection E0 as -> E0. cbn [app rb]. rewrite (find_child_In ch n0 c Hnd Hc).
+  - cbn [app] in E0. injection E0 as -> _. cbn [app rb]. unfold kind_at. cbn [node_at]. rewrite (find_child_In ch n0 c Hnd Hc). exact Ei.
+  - cbn [app] in E0. injection E0 as -> E0. cbn [app rb]. unfold kind_at. cbn [node_at]. rewrite (find_child_In ch n0 c Hnd Hc). fold (kind_at c (p2 ++ [n])).
     destruct Hx as [Hx|Hx].
     + exfalso. rewrite Ex in Hx. apply app_inv_head in Hx. cbn [app] in Hx. injection Hx as Hx. destruct p2; discriminate.
     + rewrite Forall_forall in IH. specialize (IH (n0, c) Hc _ _ _ Hwc Hx p2 n r).
@@ -980,8 +985,8 @@ Proof.
 Qed.
 
 Lemma ignored_dir_hides_subtree_lemma x p n r :
-  In x (spec_walk gm fixed_P17 fixed_P35 globals ign0 ch0) -> x = p ++ n :: r ->
-  is_ignore (check' (RB (p ++ [n])) (p ++ [n])) = false.
+  In x (spec_walk gm fixed_P17 fixed_P35 fixed_P37 globals ign0 ch0) -> x = p ++ n :: r ->
+  is_ignore (check' (RB (p ++ [n])) (p ++ [n]) (kind_at T0 (p ++ [n]))) = false.
 Proof.
   intros Hin E. apply (spec_node_sound T0 G [] x Hwf Hin p n r). exact E.
 Qed.
@@ -1007,15 +1012,15 @@ Fixpoint wl_special (R : rules) (p : path) (t : tree) {struct t} : bool :=
        match l with
        | [] => false
        | (n, c) :: r =>
-         (special n && is_white (check' R' (p ++ [n])))
-         || (if is_ignore (check' R' (p ++ [n])) then false else wl_special R' (p ++ [n]) c)
+         (special n && is_white (check' R' (p ++ [n]) (is_dir c)))
+         || (if is_ignore (check' R' (p ++ [n]) (is_dir c)) then false else wl_special R' (p ++ [n]) c)
          || go r
        end) ch
   end.
 
 Definition wl_child (R' : rules) (p : path) (nt : name * tree) : bool :=
-  (special (fst nt) && is_white (check' R' (p ++ [fst nt])))
-  || (if is_ignore (check' R' (p ++ [fst nt])) then false else wl_special R' (p ++ [fst nt]) (snd nt)).
+  (special (fst nt) && is_white (check' R' (p ++ [fst nt]) (is_dir (snd nt))))
+  || (if is_ignore (check' R' (p ++ [fst nt]) (is_dir (snd nt))) then false else wl_special R' (p ++ [fst nt]) (snd nt)).
 
 Lemma wl_special_dir R p ign ch :
   wl_special R p (Dir ign ch) = existsb (wl_child (add_patterns R (dir_patterns p ign)) p) ch.
@@ -1023,20 +1028,20 @@ Proof.
   cbn [wl_special]. induction ch as [|[n c] r IH]; [reflexivity|]. cbn [existsb]. rewrite <- IH. reflexivity.
 Qed.
 
-Lemma special_not_nomatch R p n : sub G R -> special n = true ->
-  is_ignore (check' R (p ++ [n])) = false -> is_white (check' R (p ++ [n])) = true.
+Lemma special_not_nomatch R p n d : sub G R -> special n = true ->
+  is_ignore (check' R (p ++ [n]) d) = false -> is_white (check' R (p ++ [n]) d) = true.
 Proof.
   intros Hs Hsp. destruct (Hspecial p n Hsp) as (pat & Hin & Hsrc & Hgm).
-  unfold check, check_str35. destruct (fixed_P35 && global_hit gm R (render (p ++ [n]))); [cbn; discriminate|].
-  unfold check_str. destruct (existsb _ (r_white R)); [reflexivity|].
-  assert (He : existsb (hits (render (p ++ [n]))) (r_ign R) = true).
+  unfold check, check_strd. destruct (fixed_P35 && global_hit_d gm fixed_P37 R (render (p ++ [n])) d); [cbn; discriminate|].
+  destruct (existsb _ (r_white R)); [reflexivity|].
+  assert (He : existsb (hits (render (p ++ [n])) d) (r_ign R) = true).
   { apply existsb_exists. exists pat. split; [apply (proj1 Hs); exact Hin|].
-    unfold pat_hits, applies. rewrite Hsrc, Hgm, if_true_same. reflexivity. }
+    unfold pat_hits_d, glob_hit, applies. rewrite Hsrc, Hgm, if_true_same. reflexivity. }
   rewrite He. cbn. discriminate.
 Qed.
 
 Lemma spec_node_special : forall t R cur x, sub G R -> wl_special R cur t = false ->
-  In x (spec_node gm fixed_P17 fixed_P35 R cur t) -> forall p n r, x = cur ++ p ++ n :: r -> special n = false.
+  In x (spec_node gm fixed_P17 fixed_P35 fixed_P37 R cur t) -> forall p n r, x = cur ++ p ++ n :: r -> special n = false.
 Proof.
   induction t as [|ign ch IH] using tree_ind'; intros R cur x Hs Hwl Hin p n r Ex; [contradiction|].
   rewrite spec_node_dir in Hin. apply in_flat_map in Hin as ([n0 c] & Hc & Hx).
@@ -1046,9 +1051,9 @@ Proof.
   assert (Hw0 : wl_child R' cur (n0, c) = false).
   { destruct (wl_child R' cur (n0, c)) eqn:E; [|reflexivity]. rewrite <- Hwl. symmetry. apply existsb_exists. exists (n0, c). split; assumption. }
   unfold wl_child in Hw0. cbn [fst snd] in Hw0. apply orb_false_iff in Hw0 as [Hw1 Hw2].
-  unfold spec_child in Hx. cbn [fst snd] in Hx. destruct (is_ignore (check' R' (cur ++ [n0]))) eqn:Ei; [contradiction|].
+  unfold spec_child in Hx. cbn [fst snd] in Hx. destruct (is_ignore (check' R' (cur ++ [n0]) (is_dir c))) eqn:Ei; [contradiction|].
   assert (Hn0 : special n0 = false).
-  { destruct (special n0) eqn:Esp; [|reflexivity]. rewrite (special_not_nomatch R' cur n0 Hs' Esp Ei) in Hw1. discriminate. }
+  { destruct (special n0) eqn:Esp; [|reflexivity]. rewrite (special_not_nomatch R' cur n0 (is_dir c) Hs' Esp Ei) in Hw1. discriminate. }
   rewrite Ex in E0. apply app_inv_head in E0.
   destruct p as [|m p2].
   - cbn [app] in E0. injection E0 as -> _. exact Hn0.
@@ -1061,14 +1066,14 @@ Qed.
 
 (* with the repair of P35 a special name is Ignore under every rule set that contains the global rules,
    whatever the whitelist patterns say: the known class is empty *)
-Lemma special_ignored_when_fixed R p n : fixed_P35 = true -> sub G R -> special n = true ->
-  check' R (p ++ [n]) = Ignore.
+Lemma special_ignored_when_fixed R p n d : fixed_P35 = true -> sub G R -> special n = true ->
+  check' R (p ++ [n]) d = Ignore.
 Proof.
   intros Hf Hs Hsp. destruct (Hspecial p n Hsp) as (pat & Hin & Hsrc & Hgm).
-  unfold check, check_str35. rewrite Hf. cbn [andb].
-  assert (He : global_hit gm R (render (p ++ [n])) = true).
-  { unfold global_hit. apply existsb_exists. exists pat. split; [apply (proj1 Hs); exact Hin|].
-    unfold is_global. rewrite Hsrc, Hgm. reflexivity. }
+  unfold check, check_strd. rewrite Hf. cbn [andb].
+  assert (He : global_hit_d gm fixed_P37 R (render (p ++ [n])) d = true).
+  { unfold global_hit_d. apply existsb_exists. exists pat. split; [apply (proj1 Hs); exact Hin|].
+    unfold is_global, glob_hit. rewrite Hsrc, Hgm. reflexivity. }
   rewrite He. reflexivity.
 Qed.
 
@@ -1081,13 +1086,13 @@ Proof.
   destruct (existsb (wl_child R' cur) ch) eqn:E; [|reflexivity]. exfalso.
   apply existsb_exists in E as ([n0 c] & Hc & Hw). unfold wl_child in Hw. cbn [fst snd] in Hw.
   apply orb_true_iff in Hw as [Hw|Hw].
-  - apply andb_true_iff in Hw as [Hsp Hw]. rewrite (special_ignored_when_fixed R' cur n0 Hf Hs' Hsp) in Hw. discriminate.
-  - destruct (is_ignore (check' R' (cur ++ [n0]))); [discriminate|].
+  - apply andb_true_iff in Hw as [Hsp Hw]. rewrite (special_ignored_when_fixed R' cur n0 (is_dir c) Hf Hs' Hsp) in Hw. discriminate.
+  - destruct (is_ignore (check' R' (cur ++ [n0]) (is_dir c))); [discriminate|].
     rewrite Forall_forall in IH. assert (E := IH (n0, c) Hc R' (cur ++ [n0]) Hs'). cbn [snd] in E. rewrite E in Hw. discriminate.
 Qed.
 
 Lemma never_enters_special_lemma x p n r :
-  wl_special G [] T0 = false -> In x (spec_walk gm fixed_P17 fixed_P35 globals ign0 ch0) -> x = p ++ n :: r -> special n = false.
+  wl_special G [] T0 = false -> In x (spec_walk gm fixed_P17 fixed_P35 fixed_P37 globals ign0 ch0) -> x = p ++ n :: r -> special n = false.
 Proof.
   intros Hwl Hin E. apply (spec_node_special T0 G [] x (sub_refl G) Hwl Hin p n r). exact E.
 Qed.
@@ -1099,6 +1104,7 @@ Section Termination.
 Variable gm : bytes -> bytes -> bool.
 Variable fixed_P17 : bool.
 Variable fixed_P35 : bool.
+Variable fixed_P37 : bool.
 
 Fixpoint tsize (t : tree) : nat :=
   match t with
@@ -1140,7 +1146,7 @@ Proof. unfold wkept. rewrite map_app, list_sum_app. reflexivity. Qed.
 Lemma wqueue_app l1 l2 : wqueue (l1 ++ l2) = (wqueue l1 + wqueue l2)%nat.
 Proof. unfold wqueue. rewrite map_app, list_sum_app. reflexivity. Qed.
 
-Lemma par_step_decreases c i k c' : par_step gm fixed_P17 fixed_P35 c i k = Some c' -> (mu c' < mu c)%nat.
+Lemma par_step_decreases c i k c' : par_step gm fixed_P17 fixed_P35 fixed_P37 c i k = Some c' -> (mu c' < mu c)%nat.
 Proof.
   intros H. unfold par_step in H. destruct (nth_error (c_threads c) i) as [ts|] eqn:En; [|discriminate].
   destruct (nth_split _ _ _ En) as (l1 & l2 & Et & Hset).
@@ -1174,17 +1180,17 @@ Qed.
 Fixpoint steps (c : config) (sched : list (nat * nat)) : nat :=
   match sched with
   | [] => O
-  | (i, k) :: r => match par_step gm fixed_P17 fixed_P35 c i k with Some c' => S (steps c' r) | None => steps c r end
+  | (i, k) :: r => match par_step gm fixed_P17 fixed_P35 fixed_P37 c i k with Some c' => S (steps c' r) | None => steps c r end
   end.
 
 Lemma steps_bounded sched : forall c, (steps c sched <= mu c)%nat.
 Proof.
   induction sched as [|[i k] r IH]; intros c; cbn [steps]; [lia|].
-  destruct (par_step gm fixed_P17 fixed_P35 c i k) as [c'|] eqn:E; [|apply IH].
+  destruct (par_step gm fixed_P17 fixed_P35 fixed_P37 c i k) as [c'|] eqn:E; [|apply IH].
   assert (H := par_step_decreases c i k c' E). specialize (IH c'). lia.
 Qed.
 
-Lemma progress c : final c = false -> exists i, par_step gm fixed_P17 fixed_P35 c i O <> None.
+Lemma progress c : final c = false -> exists i, par_step gm fixed_P17 fixed_P35 fixed_P37 c i O <> None.
 Proof.
   intros Hf. unfold final in Hf.
   assert (Hex : exists ts, In ts (c_threads c) /\ is_done ts = false).
@@ -1199,21 +1205,21 @@ Qed.
 
 (* every configuration can be driven to a final one, in at most [mu] steps *)
 Lemma terminates_lemma : forall n c, (mu c <= n)%nat ->
-  exists sched, final (par_run gm fixed_P17 fixed_P35 c sched) = true /\ (length sched <= mu c)%nat.
+  exists sched, final (par_run gm fixed_P17 fixed_P35 fixed_P37 c sched) = true /\ (length sched <= mu c)%nat.
 Proof.
   induction n as [|n IH]; intros c Hn.
   - destruct (final c) eqn:Ef; [exists []; split; [exact Ef|cbn; lia]|].
-    destruct (progress c Ef) as (i & Hi). destruct (par_step gm fixed_P17 fixed_P35 c i O) as [c'|] eqn:E; [|contradiction].
+    destruct (progress c Ef) as (i & Hi). destruct (par_step gm fixed_P17 fixed_P35 fixed_P37 c i O) as [c'|] eqn:E; [|contradiction].
     assert (H := par_step_decreases c i O c' E). lia.
   - destruct (final c) eqn:Ef; [exists []; split; [exact Ef|cbn; lia]|].
-    destruct (progress c Ef) as (i & Hi). destruct (par_step gm fixed_P17 fixed_P35 c i O) as [c'|] eqn:E; [|contradiction].
+    destruct (progress c Ef) as (i & Hi). destruct (par_step gm fixed_P17 fixed_P35 fixed_P37 c i O) as [c'|] eqn:E; [|contradiction].
     assert (H := par_step_decreases c i O c' E).
     destruct (IH c') as (sched & Hfin & Hlen); [lia|].
     exists ((i, O) :: sched). cbn [par_run length]. rewrite E. split; [exact Hfin|lia].
 Qed.
 
 (* a run that cannot be continued is final *)
-Lemma stuck_final c : (forall i k, par_step gm fixed_P17 fixed_P35 c i k = None) -> final c = true.
+Lemma stuck_final c : (forall i k, par_step gm fixed_P17 fixed_P35 fixed_P37 c i k = None) -> final c = true.
 Proof.
   intros Hs. destruct (final c) eqn:Ef; [reflexivity|]. destruct (progress c Ef) as (i & Hi). rewrite Hs in Hi. contradiction.
 Qed.
@@ -1234,21 +1240,21 @@ Proof.
   apply (applies_below pat D q (dir_patterns_src _ _ _ Hin) HD (forallb_good _ HgD) Hq (forallb_good _ Hgq) Ha).
 Qed.
 
-Definition walk_deterministic gm (fixed f35 : bool) globals ign ch : Prop :=
+Definition walk_deterministic gm (fixed f35 f37 : bool) globals ign ch : Prop :=
   forall n sched, (1 <= n)%nat ->
-    let c := par_walk gm fixed f35 n globals ign ch sched in
+    let c := par_walk gm fixed f35 f37 n globals ign ch sched in
     final c = true ->
-    Permutation (c_out c) (spec_walk gm fixed f35 globals ign ch) /\ NoDup (c_out c).
+    Permutation (c_out c) (spec_walk gm fixed f35 f37 globals ign ch) /\ NoDup (c_out c).
 
-Lemma par_ignored_dir_hides_subtree_lemma gm fixed f35 globals ign ch n sched x p m r :
-  wf_tree (Dir ign ch) = true -> local_rules gm fixed ign ch -> (1 <= n)%nat ->
-  let c := par_walk gm fixed f35 n globals ign ch sched in
+Lemma par_ignored_dir_hides_subtree_lemma gm fixed f35 f37 globals ign ch n sched x p m r :
+  wf_tree (Dir ign ch) = true -> local_rules gm fixed f37 ign ch -> (1 <= n)%nat ->
+  let c := par_walk gm fixed f35 f37 n globals ign ch sched in
   final c = true -> In x (c_out c) -> x = p ++ m :: r ->
-  is_ignore (check gm fixed f35 (RB globals ign ch (p ++ [m])) (p ++ [m])) = false.
+  is_ignore (check gm fixed f35 f37 (RB globals ign ch (p ++ [m])) (p ++ [m]) (kind_at (Dir ign ch) (p ++ [m]))) = false.
 Proof.
   intros Hwf Hl Hn c Hf Hin E.
-  destruct (par_walk_deterministic_lemma gm fixed f35 globals ign ch Hwf Hl n sched Hn Hf) as [Hp _].
-  apply (ignored_dir_hides_subtree_lemma gm fixed f35 globals ign ch Hwf x p m r); [|exact E].
+  destruct (par_walk_deterministic_lemma gm fixed f35 f37 globals ign ch Hwf Hl n sched Hn Hf) as [Hp _].
+  apply (ignored_dir_hides_subtree_lemma gm fixed f35 f37 globals ign ch Hwf x p m r); [|exact E].
   eapply Permutation_in; eassumption.
 Qed.
 
@@ -1265,20 +1271,20 @@ Qed.
 Lemma ign_panics_fixed ign : ign_panics true ign = false.
 Proof. destruct ign; [apply content_panics_fixed|reflexivity]. Qed.
 
-Lemma panics_node_fixed gm fixed f35 : forall t R p, panics_node gm fixed f35 true R p t = false.
+Lemma panics_node_fixed gm fixed f35 f37 : forall t R p, panics_node gm fixed f35 f37 true R p t = false.
 Proof.
   induction t as [|ign ch IH] using tree_ind'; intros R p; [reflexivity|].
   cbn [panics_node]. rewrite ign_panics_fixed. cbn [orb].
   generalize (add_patterns R (dir_patterns p ign)). intros R'.
   induction ch as [|[n c] r IHr]; [reflexivity|].
   inversion IH as [|? ? Hc Hr]. subst. cbn [snd] in Hc.
-  destruct (is_ignore (check gm fixed f35 R' (p ++ [n]))); cbn [orb]; [|rewrite Hc; cbn [orb]]; apply IHr; exact Hr.
+  destruct (is_ignore (check gm fixed f35 f37 R' (p ++ [n]) (is_dir c))); cbn [orb]; [|rewrite Hc; cbn [orb]]; apply IHr; exact Hr.
 Qed.
 
 Lemma globals_panic_fixed globals : existsb (pattern_new_panics true) (lines globals) = false.
 Proof. induction (lines globals) as [|l r IH]; [reflexivity|]. cbn [existsb]. rewrite IH. reflexivity. Qed.
 
-Lemma walk_panics_fixed gm fixed f35 globals ign ch : walk_panics gm fixed f35 true globals ign ch = false.
+Lemma walk_panics_fixed gm fixed f35 f37 globals ign ch : walk_panics gm fixed f35 f37 true globals ign ch = false.
 Proof. unfold walk_panics. rewrite globals_panic_fixed, panics_node_fixed. reflexivity. Qed.
 
 Lemma tree_mb_line_fixed : forall t, tree_mb_line true t = false.
@@ -1293,18 +1299,18 @@ Lemma known_P36_fixed globals t : known_P36 true globals t = false.
 Proof. unfold known_P36. rewrite globals_panic_fixed, tree_mb_line_fixed. reflexivity. Qed.
 
 (* outside the class nothing panics, whatever the switch: the files the walk reads are files of the tree *)
-Lemma panics_node_outside gm fixed f35 f36 : forall t R p, tree_mb_line f36 t = false -> panics_node gm fixed f35 f36 R p t = false.
+Lemma panics_node_outside gm fixed f35 f37 f36 : forall t R p, tree_mb_line f36 t = false -> panics_node gm fixed f35 f37 f36 R p t = false.
 Proof.
   induction t as [|ign ch IH] using tree_ind'; intros R p Hk; [reflexivity|].
   cbn [panics_node tree_mb_line] in *. apply orb_false_iff in Hk as [Hi Hk]. rewrite Hi. cbn [orb].
   generalize (add_patterns R (dir_patterns p ign)). intros R'.
   induction ch as [|[n c] r IHr]; [reflexivity|].
   inversion IH as [|? ? Hc Hr]. subst. cbn [snd] in Hc. apply orb_false_iff in Hk as [Hk1 Hk2].
-  destruct (is_ignore (check gm fixed f35 R' (p ++ [n]))); cbn [orb]; [|rewrite (Hc R' (p ++ [n]) Hk1); cbn [orb]]; apply IHr; assumption.
+  destruct (is_ignore (check gm fixed f35 f37 R' (p ++ [n]) (is_dir c))); cbn [orb]; [|rewrite (Hc R' (p ++ [n]) Hk1); cbn [orb]]; apply IHr; assumption.
 Qed.
 
-Lemma walk_panics_outside gm fixed f35 f36 globals ign ch :
-  known_P36 f36 globals (Dir ign ch) = false -> walk_panics gm fixed f35 f36 globals ign ch = false.
+Lemma walk_panics_outside gm fixed f35 f37 f36 globals ign ch :
+  known_P36 f36 globals (Dir ign ch) = false -> walk_panics gm fixed f35 f37 f36 globals ign ch = false.
 Proof.
   unfold known_P36, walk_panics. intros H. apply orb_false_iff in H as [Hg Ht]. rewrite Hg. cbn [orb].
   apply panics_node_outside. exact Ht.
